@@ -179,6 +179,54 @@ def run(tier, seed):
             prefill.append({'name': pkg, 'reg': reg, 'vs': [vprefix + '1.0.0', vprefix + '1.0.1', vprefix + '2.0.0-beta.1']})
         scripts.append({'registry': {}, 'prefill': prefill, 'config': a, 'gated': False, 'steps': steps})
         metas.append((a, keys))
+    # late answers: the documents are opened (and asked for actions) BEFORE the configuration request is answered; once it
+    # is answered, a disabled registry's document gets no code actions and no diagnostics for further edits, the others keep both
+    late_scripts, late_metas = [], []
+    for a in [x for x in svc_answers if isinstance(x, dict) and isinstance(x.get('registries'), dict) and documented(x) is not None][:(8 if tier == 'quick' else 60)]:
+        keys = rnd.sample(KEYS, 4)
+        steps, prefill, pos = [], [], {}
+        for k in keys:
+            uri, text, reg, pkg = DOCS[k]
+            line = [i for i, l in enumerate(text.split('\n')) if '1.0.0' in l][0]
+            col = text.split('\n')[line].index('jsr:') + 1 if k == 'jsr' else text.split('\n')[line].index('1.0.0') + 1
+            pos[k] = (line, col)
+            steps.append({'op': 'open', 'uri': uri, 'text': text})
+            steps.append({'op': 'action', 'uri': uri, 'line': line, 'character': col})
+            vprefix = 'v' if k in ('goProxy', 'github') else ''
+            prefill.append({'name': pkg, 'reg': reg, 'vs': [vprefix + '1.0.0', vprefix + '1.0.1', vprefix + '2.0.0-beta.1']})
+        steps.append({'op': 'config_answer'})
+        for k in keys:
+            uri, text, reg, pkg = DOCS[k]
+            steps.append({'op': 'action', 'uri': uri, 'line': pos[k][0], 'character': pos[k][1]})
+            steps.append({'op': 'change', 'uri': uri, 'text': text + '\n'})
+        late_scripts.append({'registry': {}, 'prefill': prefill, 'config': a, 'gated': False, 'steps': steps})
+        late_metas.append((a, keys))
+    louts, err = C.run_harness('backend', 0, 0, stdin='\n'.join(json.dumps(s) for s in late_scripts) + '\n', timeout=3000)
+    if err:
+        rep.broke('harness backend (late configuration answer)', err)
+    nlate = 0
+    for (a, keys), o in zip(late_metas, louts or []):
+        steps = o['out']['steps']
+        d = documented(a)
+        n = len(keys)
+        for j, k in enumerate(keys):
+            before_open, before_act = steps[2 * j], steps[2 * j + 1]
+            after_act, after_change = steps[2 * n + 1 + 2 * j], steps[2 * n + 2 + 2 * j]
+            offered0 = isinstance(before_act['result'], dict) and before_act['result'].get('ok') not in (None, [])
+            pubs0 = [t for t in before_open['traffic'] if t['kind'] == 'publish']
+            offered = isinstance(after_act['result'], dict) and after_act['result'].get('ok') not in (None, [])
+            pubs = [t for t in after_change['traffic'] if t['kind'] == 'publish' and t['uri'] == DOCS[k][0]]
+            desc = {'configuration_answer_given_after_opening': a, 'registry_key': k, 'document': DOCS[k][0], 'code_action_after_answer': after_act['result'], 'publications_after_answer': pubs}
+            nlate += 1
+            if not offered0 or not pubs0 or not pubs0[-1]['diags']:
+                rep.violation(f'before the configuration is answered the defaults apply, but the document of {k} got no diagnostics / code actions', desc)
+            if d['enabled'][k]:
+                if not offered or not pubs or not pubs[-1]['diags']:
+                    rep.violation(f'registry {k} stays enabled by a configuration answer given after its document was opened, but the document lost its diagnostics or code actions', desc)
+            else:
+                if offered or pubs:
+                    rep.violation(f'registry {k} is disabled by a configuration answer given after its document was opened, but the document still receives code actions or diagnostics', desc)
+    rep.cov['streams']['late_answer'] = {'scripts': len(late_scripts), 'documents_judged': nlate}
     outs, err = C.run_harness('backend', 0, 0, stdin='\n'.join(json.dumps(s) for s in scripts) + '\n', timeout=3000)
     if err:
         rep.broke('harness backend (config)', err)
